@@ -10,6 +10,7 @@ import (
 
 	"github.com/frankkopp/FrankyGo/verif/eng"
 	"github.com/frankkopp/FrankyGo/verif/refchess"
+	"github.com/frankkopp/FrankyGo/verif/space"
 	"github.com/frankkopp/FrankyGo/verif/vl"
 )
 
@@ -73,6 +74,17 @@ func c07(tier string, args []string) int {
 		}
 		fens = append(fens, f)
 	}
+	trapLevel := 0
+	if tier == "thorough" {
+		trapLevel = 1
+	}
+	fens = append(fens, stalemateTraps(trapLevel)...)
+	// a double step that gives check and can only be answered by capturing that pawn en passant (one ply below the root)
+	epKinds := []int8{space.R}
+	if tier == "thorough" {
+		epKinds = []int8{space.B, space.R, space.N, space.Q}
+	}
+	fens = append(fens, space.EpEvasionRoots(epKinds, 1)...)
 	// the draw rules inside the tree (a move into a draw is a searched move): clocks 97..99 and shuffle histories
 	drawStep := 24
 	if tier == "thorough" {
